@@ -424,6 +424,32 @@ def h_lemma(ctx: Any, name: str, size: int, prof: str = 'arg', twin: bool = Fals
     ctx.check(not forb, f'C10.{name}.uses-other-rules', lambda: repr(forb))
 
 
+def h_conj_nth(ctx: Any, l: int, size: int, twin: bool = False) -> None:
+    """conjunction_implies_nth(term, n, l):  p0 /\\ (p1 /\\ (... /\\ p_{l-1})) -> pn   (docstring with an ellipsis, spelled out here)"""
+    from proof_generation import pattern as P
+    from proof_generation.tautology import Tautology, foldr_op
+
+    prof = Prof(symbol=0, evar=False, svar=False, mu=False, app=False, exists=False, implies=False, metavars=2, notations=(P._and, P.equiv))
+    terms = [gens.gen_upto(ctx, size, prof) for _ in range(l)]
+    n = ctx.choose(l, 'n')
+    term = foldr_op(P._and, terms)
+    ctx.count('reached')
+    ctx.sample({'conjuncts': [repr(t) for t in terms], 'n': n})
+    if twin:
+        ctx.violation('TWIN')
+    t = Tautology()
+    try:
+        th = t.conjunction_implies_nth(term, n, l)
+        it = Recording.make(list(t._axioms))
+        res = th(it)
+    except Exception as e:
+        ctx.violation(f'C10.conjunction_implies_nth.raises[{type(e).__name__}]', f'{terms!r} n={n}: {e}')
+    want = ('imp', O.expand(term), O.expand(terms[n]))
+    ctx.check(O.eq(O.expand(th.conc), want), 'C10.conjunction_implies_nth.advertised-conclusion-differs-from-schema', lambda: f'{terms!r} n={n}: advertises {th.conc!s}')
+    ctx.check(O.eq(O.expand(res.conclusion), want), 'C10.conjunction_implies_nth.replayed-conclusion-differs-from-schema', lambda: f'{terms!r} n={n}: replay proves {res!s}')
+    ctx.check(not it.forbidden, 'C10.conjunction_implies_nth.uses-other-rules', lambda: repr(it.forbidden))
+
+
 def levels(tier: str) -> list[dict]:
     prepare()
     M = 'vf.props.c10'
@@ -440,6 +466,8 @@ def levels(tier: str) -> list[dict]:
             size, prof = 1, 'arg_small'
         L.append(dict(label=f'{name}/args<={size}/{prof}', module=M, fn='h_lemma', kwargs=dict(name=name, size=size, prof=prof), budget_s=150 if q else 900, required=True, twin=first))
         first = False
+    for l, size in ([(1, 3), (2, 3), (3, 1)] if q else [(1, 5), (2, 3), (3, 3)]):
+        L.append(dict(label=f'conjunction_implies_nth/l={l},conjuncts<={size}', module=M, fn='h_conj_nth', kwargs=dict(l=l, size=size), budget_s=150 if q else 900, required=True, twin=False))
     return L
 
 
